@@ -86,6 +86,9 @@ func (f *Formatter) Format(vcl *ast.VCL) io.Reader {
 
 		decl.Leading = f.formatComment(stmt.GetMeta().Leading, "\n", 0)
 		decl.EmptyLine = stmt.GetMeta().PreviousEmptyLines > 0
+		// Like in a block statement, an empty line is never followed by another one (the group separator
+		// and the empty line in front of a leading comment of a property add up otherwise)
+		decl.Buffer = trimMultipleLineFeeds(decl.Buffer)
 		decl.Buffer += f.trailing(trailingNode.GetMeta().Trailing)
 		decls = append(decls, decl)
 	}
